@@ -255,7 +255,7 @@ def run(ctx):
             ctx.violation("direct:" + key, {"case": c, "observed": o, "failed_clauses": fails[:10]},
                           what=f"step {i0}: {clause}")
         idx.append(i)
-        terms.append(f"({g_in(c, o)}, {g_out(o)})")
+        terms.append(f"({g_in(c, o)} : case_in, {g_out(o)} : case_out)")
     bad = ctx.coq_eval_cases("cases", "From PLV Require Import Disc.CtxRegistryModel.", terms, "check_case",
                              chunk=40)
     for j in bad:
